@@ -9,10 +9,12 @@ Cfg == [BaseCfg EXCEPT !.operators = << [name |-> "god", pass |-> "godpass", mas
                        !.channels = << [ChanCfg("#pre") EXCEPT !.h = {"bob"}] >>]
 Pre == Reg(A, "alice", "u1") \o Reg(B, "bob", "u2") \o Reg(C, "carol", "u3")
        \o << St(A, "JOIN", <<<<"#one">>>>), St(B, "JOIN", <<<<"#one", "#pre">>>>) >>
+N40 == "abcdefghijabcdefghijabcdefghijabcdefghij"
+N201 == N40 \o N40 \o N40 \o N40 \o N40 \o "x"     \* longer than the advertised NICKLEN
 History ==
     { St(A, "OPER", <<<<"god">>, <<"godpass">>>>), St(B, "MODE", <<<<"bob">>, <<"+iw">>>>), St(A, "MODE", <<<<"alice">>, <<"+w">>>>),
       St(A, "MODE", <<<<"#one">>, <<"+v", "bob">>>>), St(A, "INVITE", <<<<"carol">>, <<"#one">>>>), St(B, "AWAY", <<<<"brb">>>>),
-      St(C, "JOIN", <<<<"#two">>>>), St(B, "JOIN", <<<<"#two">>>>), St(B, "NICK", <<<<"bobby">>>>) }
+      St(C, "JOIN", <<<<"#two">>>>), St(B, "JOIN", <<<<"#two">>>>), St(B, "NICK", <<<<"bobby">>>>), St(B, "NICK", <<<<N201>>>>) }
 EndSteps ==
     UNION { { St(c, "QUIT", <<>>), St(c, "!close", <<>>), St(c, "!rst", <<>>), St(c, "!half", <<<<"PRIVMSG alice :cut">>>>) } : c \in {A, B, C} }
     \cup { St(A, "KILL", <<<<"bob">>, <<"bye bob">>>>), St(A, "KILL", <<<<"bobby">>, <<"bye">>>>), St(A, "KILL", <<<<"alice">>, <<"self">>>>),
@@ -22,7 +24,7 @@ Steps == {st \in History \cup EndSteps : Enabled(st)}
 Init == InitWith(Cfg, Pre)
 Next == NextWith(Steps)
 Spec == Init /\ [][Next]_vars
-Depth == 7
+Depth == 6
 DepthT == 9
 Constraint == Len(hist) <= Len(Pre) + Depth
 ASSUME PrintT(<<"CFG", ToJson(CfgJson(Cfg))>>)
